@@ -111,6 +111,17 @@ Theorem C08_lzma2_mt_writer_data : forall lc lp pb dict us tail,
 Proof. exact lzma2_mt_writer_data. Qed.
 Print Assumptions C08_lzma2_mt_writer_data.
 
+(* ... and multi-threaded on both sides: the units LZMA2ReaderMT cuts from that stream decode, each
+   by a fresh reader, to pieces that concatenate to the written data *)
+Theorem C08_lzma2_mt_writer_mt_reader : forall lc lp pb dict us tail,
+  0 <= lc -> 0 <= lp -> lc + lp <= 4 -> 0 <= pb <= 4 -> dict <= 2147483648 ->
+  Forall (mt_unit_written lc lp pb dict) us -> bytes_ok tail = true ->
+  cr_end (cut_lzma2 (mt_bodies us ++ 0 :: tail)) = None /\
+  exists datas, Forall2 (fun u du => l2_decodes u dict None du) (cr_units (cut_lzma2 (mt_bodies us ++ 0 :: tail))) datas /\
+                concat datas = mt_data us.
+Proof. exact lzma2_mt_writer_mt_reader. Qed.
+Print Assumptions C08_lzma2_mt_writer_mt_reader.
+
 (* LZIP.  A file of members (LZIPWriterMT: one member per work unit; any concatenation): the
    backward scan of LZIPReaderMT finds exactly the members, each member alone is decoded by a fresh
    LZIPReader (the worker) to its own content, and the single-threaded reader decodes the file to
